@@ -543,7 +543,7 @@ func c09Binary(ev *vlib.Evidence) {
 
 func TestC09(t *testing.T) {
 	ev := vlib.NewEvidence("C09", "exploration",
-		"exhaustive enumeration of event sequences (connect on a new connection / register again on the newest open connection / register again on the oldest open connection / register over the other host's connection (two identities on one socket) / close oldest open / close newest open, per host) up to a length bound over 1 and 2 hosts, with a probe peer request after every event: the connection object receiving vipnode_whitelist and NumRemotes are compared with a shadow registry (host -> most recently registered connection, live iff open); connections are closed the way server.go does (serve loop ends, then CloseRemote); a black-box pass against the built `vipnode pool` binary where fake hosts register over WebSocket and then close politely (close frame), abruptly or with going-away, after which a peer request must not attempt to call them (the only place server.go's disconnect callback is exercised); plus racing rounds where closes/reconnects overlap in-flight peer requests (registry vs shadow at quiescence, no call on a connection for a request started after its close); non-trivial = sequence contains a close or a reconnect; distinct = distinct sequences")
+		"exhaustive enumeration of event sequences (connect on a new connection / register again on the newest open connection / register again on the oldest open connection / register over the other host's connection (two identities on one socket) / close oldest open / close newest open, per host) up to a length bound over 1 and 2 hosts, with a probe peer request after every event: the connection object receiving vipnode_whitelist and NumRemotes are compared with a shadow registry (host -> most recently registered connection, live iff open); connections are closed the way server.go does (serve loop ends, then CloseRemote); a black-box pass against the built `vipnode pool` binary where fake hosts register over WebSocket and then close politely (close frame), abruptly or with going-away, after which a peer request must not attempt to call them (the only place server.go's disconnect callback is exercised); plus racing rounds where closes/reconnects overlap in-flight peer requests (registry vs shadow at quiescence, no call on a connection for a request started after its close); non-trivial = sequence contains a close or a reconnect; distinct = distinct sequences; (faults) whitelist answers slower than the request that set them off, error replies")
 	hosts := []*vlib.Identity{vlib.NewIdentity("c09host", 0), vlib.NewIdentity("c09host", 1)}
 	driver := vlib.DriverMemory
 	len1, len2 := vlib.Scale(5, 6), vlib.Scale(3, 4)
